@@ -132,6 +132,80 @@ impl<'de, 'a> Deserializer<'de> for In<'a> {
     }
 }
 
+fn deser_frame<const L: usize>(pat: &[u8; L]) {
+    let buf = crate::c02::sep_frame(pat);
+    let mut i = 0;
+    while i < L {
+        k::assume(buf[i] < 0x80);
+        i += 1;
+    }
+    let s: &str = unsafe { core::str::from_utf8_unchecked(&buf) };
+    #[cfg(not(kani))]
+    eprintln!("INPUT s={:?}", s);
+    let d = LanguageIdentifier::deserialize(In::Str(s));
+    let p: Result<LanguageIdentifier, _> = s.parse();
+    cover!(d.is_ok());
+    cover!(d.is_err());
+    match (&d, &p) {
+        (Ok(a), Ok(b)) => assert!(a == b, "deserialised value equals the parsed value"),
+        (Err(_), Err(_)) => {}
+        _ => assert!(false, "deserialising a string succeeds iff parsing it succeeds"),
+    }
+    core::mem::forget((d, p));
+}
+
+/// a self-describing input holding exactly one value of one kind
+pub struct One<T>(pub T);
+macro_rules! one {
+    ($t:ty, $visit:ident, |$x:ident| $e:expr) => {
+        impl<'de> Deserializer<'de> for One<$t> {
+            type Error = E;
+            fn deserialize_any<V: Visitor<'de>>(self, v: V) -> Result<V::Value, E> {
+                let $x = self.0;
+                v.$visit($e)
+            }
+            serde::forward_to_deserialize_any! {
+                bool i8 i16 i32 i64 i128 u8 u16 u32 u64 u128 f32 f64 char str string bytes byte_buf option unit unit_struct
+                newtype_struct seq tuple tuple_struct map struct enum identifier ignored_any
+            }
+        }
+    };
+}
+one!(bool, visit_bool, |x| x);
+one!(u64, visit_u64, |x| x);
+one!(i64, visit_i64, |x| x);
+one!(f64, visit_f64, |x| x);
+impl<'de> Deserializer<'de> for One<()> {
+    type Error = E;
+    fn deserialize_any<V: Visitor<'de>>(self, v: V) -> Result<V::Value, E> {
+        v.visit_unit()
+    }
+    serde::forward_to_deserialize_any! {
+        bool i8 i16 i32 i64 i128 u8 u16 u32 u64 u128 f32 f64 char str string bytes byte_buf option unit unit_struct
+        newtype_struct seq tuple tuple_struct map struct enum identifier ignored_any
+    }
+}
+impl<'de> Deserializer<'de> for One<Option<()>> {
+    type Error = E;
+    fn deserialize_any<V: Visitor<'de>>(self, v: V) -> Result<V::Value, E> {
+        v.visit_none()
+    }
+    serde::forward_to_deserialize_any! {
+        bool i8 i16 i32 i64 i128 u8 u16 u32 u64 u128 f32 f64 char str string bytes byte_buf option unit unit_struct
+        newtype_struct seq tuple tuple_struct map struct enum identifier ignored_any
+    }
+}
+impl<'de, 'a> Deserializer<'de> for One<&'a [u8]> {
+    type Error = E;
+    fn deserialize_any<V: Visitor<'de>>(self, v: V) -> Result<V::Value, E> {
+        v.visit_bytes(self.0)
+    }
+    serde::forward_to_deserialize_any! {
+        bool i8 i16 i32 i64 i128 u8 u16 u32 u64 u128 f32 f64 char str string bytes byte_buf option unit unit_struct
+        newtype_struct seq tuple tuple_struct map struct enum identifier ignored_any
+    }
+}
+
 proofs! {
 
 // serialises to exactly the canonical string
@@ -144,6 +218,21 @@ proofs! {
     let mut wn = 0;
     spec::write_langid(&mut want, &mut wn, &m);
     cover!(m.nvariants == 1);
+    assert!(r.is_ok(), "serialisation succeeds");
+    assert!(bytes_are(&buf[..n], &want, wn), "serialises to exactly the canonical string");
+    core::mem::forget(x);
+}
+
+// longer identifiers (two variants: up to 35 bytes of text)
+[string] fn c19_serialize_canonical_v2() {
+    let (x, m) = sym::langid_shape(true, true, 2);
+    let mut buf = [0u8; OUT];
+    let mut n = 0usize;
+    let r = x.serialize(Cap { buf: &mut buf, n: &mut n });
+    let mut want = [0u8; OUT];
+    let mut wn = 0;
+    spec::write_langid(&mut want, &mut wn, &m);
+    cover!(wn > 32);
     assert!(r.is_ok(), "serialisation succeeds");
     assert!(bytes_are(&buf[..n], &want, wn), "serialises to exactly the canonical string");
     core::mem::forget(x);
@@ -188,6 +277,22 @@ proofs! {
     }
     core::mem::forget((d, p));
 }
+// a well-formed identifier with one arbitrary ASCII byte in front / behind (padding, quotes, NUL ...)
+[push, sortv, boxed] fn c19_deserialize_lead() { deser_frame(b"?en") }
+[push, sortv, boxed] fn c19_deserialize_trail() { deser_frame(b"en?") }
+[push, sortv, boxed] fn c19_deserialize_lead_trail() { deser_frame(b"?en-US?") }
+[push, sortv, boxed] fn c19_deserialize_str_1() { deser_frame(b"?") }
+[push, sortv, boxed] fn c19_deserialize_concrete() {
+    let s = "en-Latn-US";
+    let d = LanguageIdentifier::deserialize(In::Str(s));
+    let p: Result<LanguageIdentifier, _> = s.parse();
+    cover!(d.is_ok());
+    match (&d, &p) {
+        (Ok(a), Ok(b)) => assert!(a == b && a.script.is_some() && a.region.is_some(), "deserialised value equals the parsed value"),
+        _ => assert!(false, "a well-formed identifier deserialises"),
+    }
+    core::mem::forget((d, p));
+}
 [push, sortv, boxed] fn c19_deserialize_str_2() {
     let b: [u8; 2] = k::bytes();
     k::assume(b[0] < 0x80 && b[1] < 0x80);
@@ -206,23 +311,26 @@ proofs! {
     core::mem::forget((d, p));
 }
 
-// non-string inputs are rejected with an error, never a panic
+// non-string inputs are rejected with an error, never a panic.  One Deserializer type per kind
+// (not the `In` enum): the value of an enum selected by a symbolic tag reaches the `Str` arm's
+// payload as unconstrained bytes in CBMC's merged state, which drags the whole parser into the query
+// on a string of unconstrained pointer and length (measured: no result in 30 min)
 [] fn c19_non_string_rejected() {
     let sel = k::u8();
     k::assume(sel < 7);
     let raw = k::u64();
     let bytes: [u8; 2] = k::bytes();
-    let input = match sel {
-        0 => In::Bool(raw & 1 == 1),
-        1 => In::U64(raw),
-        2 => In::I64(raw as i64),
-        3 => In::F64(f64::from_bits(raw)),
-        4 => In::Unit,
-        5 => In::None,
-        _ => In::Bytes(&bytes),
+    let d = match sel {
+        0 => LanguageIdentifier::deserialize(One::<bool>(raw & 1 == 1)),
+        1 => LanguageIdentifier::deserialize(One::<u64>(raw)),
+        2 => LanguageIdentifier::deserialize(One::<i64>(raw as i64)),
+        3 => LanguageIdentifier::deserialize(One::<f64>(f64::from_bits(raw))),
+        4 => LanguageIdentifier::deserialize(One::<()>(())),
+        5 => LanguageIdentifier::deserialize(One::<Option<()>>(None)),
+        _ => LanguageIdentifier::deserialize(One::<&[u8]>(&bytes)),
     };
-    let d = LanguageIdentifier::deserialize(input);
     cover!(sel == 6);
+    cover!(sel == 3);
     assert!(d.is_err(), "non-string input is rejected");
     core::mem::forget(d);
 }
